@@ -403,6 +403,12 @@ class ImplRunner:
                     return [" ".join(wire.enc_val(v) for v in h.reading_as_list(nm))]
                 if rest[0] == "names":
                     return [" ".join(h.indicators)]
+                if rest[0] == "timeframes":
+                    return [" ".join(sorted(h.timeframes))]
+                if rest[0] == "getcandles":
+                    return [" ".join(f"{k}:{len(v)}" for k, v in h.get_candles().items())]
+                if rest[0] == "candles":
+                    return wire.snap_lines(h.candles(ps.get("tf") or ""))
             except Exception as e:  # noqa
                 return ["a" + wire.enc_err(e)]
             return ["bad-acc"]
